@@ -13,7 +13,7 @@ RULE = ('one case = one real audit of a scripted peer whose KEXINIT (or SSH-1 pu
         'verbose and JSON renderings; SSH-1 cipher/authentication masks; probes answered or refused.  Oracle: per category the reported name sequence equals the advertised non-empty '
         'names (UTF-8 decoded with replacement), banner and compression equal what was sent.  A case is non-trivial when the audit completed and at least one category list was compared; '
         'distinct = distinct (KEXINIT, role, rendering) specifications')
-REQUIRED = {'ssh1_padding_8': 2, 'ssh1_padding_1': 2, 'client_text_vs_json_direction_checks': 2, 'compression_lists_without_none': 10, 'audits_completed': 50, 'names_compared': 500, 'client_role': 5, 'json_runs': 10, 'ssh1_runs': 5, 'special_names': 20}
+REQUIRED = {'kexinit_padding_128_or_more': 4, 'ssh1_padding_8': 2, 'ssh1_padding_1': 2, 'client_text_vs_json_direction_checks': 2, 'compression_lists_without_none': 10, 'audits_completed': 50, 'names_compared': 500, 'client_role': 5, 'json_runs': 10, 'ssh1_runs': 5, 'special_names': 20}
 ASSUMPTIONS = ['verbose rendering repeats the name on every note line, so consecutive identical names are compared after merging (multiplicity is checked exactly in plain, batch and JSON renderings)',
                'client role with asymmetric direction lists: the report must equal one of the two directions (the statement does not say which)',
                'names containing space, comma or control characters are outside the quantifier (RFC 4251 forbids them)']
@@ -34,12 +34,13 @@ def cases(tier, seed):
         prof = profiles[i % len(profiles)]
         s = rng.randrange(1 << 30)
         for rnd in ('plain', 'batch', 'verbose', 'json'):
-            cs.append({'kind': 'server', 'seed': s, 'profile': prof, 'render': rnd, 'probes': i % 2 == 0})
+            # every third peer pads its KEXINIT with 128..255 bytes (RFC 4253 allows 4..255; peers that hide message sizes do)
+            cs.append({'kind': 'server', 'seed': s, 'profile': prof, 'render': rnd, 'probes': i % 2 == 0, 'pad': [128, 161, 255, 200, 132, 248][(i // 3) % 6] if i % 3 == 1 else 0})
     n_cli = 8 if tier == 'quick' else 120
     for i in range(n_cli):
         s = rng.randrange(1 << 30)
         for rnd in ('plain', 'batch', 'verbose', 'json'):
-            cs.append({'kind': 'client', 'seed': s, 'profile': profiles[i % 3], 'render': rnd, 'sym': i % 4 != 3})
+            cs.append({'kind': 'client', 'seed': s, 'profile': profiles[i % 3], 'render': rnd, 'sym': i % 4 != 3, 'pad': [0, 0, 136, 255][i % 4]})
     # every table name at least once (thorough: in every position class)
     names = audit.db_names()
     allnames = [(c, n) for c in ('kex', 'key', 'enc', 'mac') for n in names[c]]
@@ -213,12 +214,15 @@ def run_server(c):
     banner = 'SSH-2.0-OpenSSH_8.%d' % (random.Random(c['seed']).randint(0, 9))
     hk = gen.hostkeys_for(k['key']) if c.get('probes', True) else {}
     script = {'banner': banner, 'kex': k, 'hostkeys': hk, 'hostkey_default': None, 'gex': {'sizes': [3072, 4096], 'style': 'strict'} if c.get('probes', True) else None}
+    if c.get('pad'):
+        script['kexinit_pad'] = c['pad']
     r, p = audit.audit_server(script, RENDER[c['render']])
     viol, counters = [], {}
     if r.status not in (0, 2, 3):
         viol.append(_v('C01/audit-failed:status%s:%s' % (r.status, classify_failure(r, k)), 'audit of a well-formed peer did not produce a report', status=r.status, out=r.out[-600:], err=r.err[-300:]))
         return viol, counters
     counters['audits_completed'] = 1
+    counters['kexinit_padding_128_or_more'] = 1 if c.get('pad', 0) >= 128 else 0
     compare_report(c, r, k, banner, viol, counters)
     return viol, counters
 
@@ -249,6 +253,8 @@ def run_client(c):
         alt = {'enc': k['enc_cs'], 'mac': k['mac_cs']}
     banner = 'SSH-2.0-OpenSSH_9.%d' % rng.randint(0, 9)
     script = {'banner': banner, 'kex': k}
+    if c.get('pad'):
+        script['kexinit_pad'] = c['pad']
     r, p = audit.audit_client(script, RENDER[c['render']])
     viol, counters = [], {}
     if p.count('connected') == 0:
@@ -257,6 +263,7 @@ def run_client(c):
         viol.append(_v('C01/audit-failed:client:status%s:%s' % (r.status, classify_failure(r, k)), 'client audit of a well-formed peer did not produce a report', status=r.status, out=r.out[-600:], err=r.err[-300:]))
         return viol, counters
     counters['audits_completed'] = 1
+    counters['kexinit_padding_128_or_more'] = 1 if c.get('pad', 0) >= 128 else 0
     counters['client_role'] = 1
     compare_report(c, r, k, banner, viol, counters, client=True, alt=alt)
     if alt is not None and c['render'] in ('plain', 'json'):
@@ -306,7 +313,7 @@ def run_cover(c):
 
 
 def run_ssh1(c):
-    script = {'banner': 'SSH-1.5-OpenSSH_1.2.3', 'proto': 1, 'ssh1': {'cmask': c['cmask'], 'amask': c['amask'], 'host_bits': c.get('host_bits', 2048), 'server_bits': c.get('server_bits', 768)}}
+    script = {'banner': 'SSH-1.5-OpenSSH_1.2.3', 'proto': 1, 'ssh1': {'cmask': c['cmask'], 'amask': c['amask'], 'host_bits': c.get('host_bits', 2048), 'server_bits': c.get('server_bits', 768), 'random_pad': c.get('host_bits', 0) % 16 == 0}}   # every other SSH-1 peer fills its padding with non-zero bytes ("random data")
     r, p = audit.audit_server(script, RENDER[c['render']])
     viol, counters = [], {'ssh1_runs': 1}
     plen = len(wire.ssh1_pkm(c['cmask'], c['amask'], c.get('host_bits', 2048), c.get('server_bits', 768))) + 5
